@@ -10,15 +10,20 @@
 // everything links).  Every program goes through the REAL formatter exactly as
 // bufformat.FormatBucket does it (protocompile parser.Parse -> bufformat.FormatFileNode).
 //
-// Protocol line (for the Lean checker BufModel.Format.validFormat):
+// Protocol line (for the Lean checker BufModel.Format.validFormat / isFormatted):
 //
-//	fmt <hex input> <hex output>  ->  valid <facts>   |   invalid:<class>
+//	fmt <hex input> <hex output> <hex format(output)>  ->  valid <facts>   |   invalid:<clause>
 //
-// where the facts on the implementation side are read off protocompile's AST of the input and
-// of the output (significant-token counts, comments, removed empty statements / message
-// literal separators, converted angle brackets, inserted colons, the import and option order
-// the formatter produced); the Lean side derives the same facts from its lexer and header
-// canonicalisation model applied to the input alone.
+// The Lean driver answers "valid" iff validFormat(input, output) (the decorated significant-token
+// stream of the output -- tokens with the comments protocompile attributes to them -- is the one
+// of the input after the documented rewrites, statements hoisted/sorted/elided as documented),
+// isFormatted(output) (token-level and layout-level normal form) and format(output) == output.
+// The facts on the implementation side are read off protocompile's AST of the input and of the
+// output (significant-token counts, comments, protocompile's attribution of every comment to a token
+// as leading/trailing, removed empty statements / message literal separators, converted angle brackets,
+// inserted colons, the import and option order the formatter produced); the Lean side derives
+// the same facts from its lexer, comment attribution and header canonicalisation model applied
+// to the input alone.
 //
 // Oracle (oracle.go, implementation only): the output parses; input and output compile to the
 // same FileDescriptorProto modulo source info and import order; every comment survives and
@@ -42,13 +47,13 @@ var families = []string{"general", "general", "general", "witness", "dupimports"
 // lexFacts: the input-only part of facts.
 func lexFacts(src string) string {
 	f := facts(src, src)
-	// sig=a/b com=.. empties=.. seps=.. angles=.. colons=.. imports=.. opts=..
+	// sig=a/b com=.. attr=.. empties=.. seps=.. angles=.. colons=.. imports=.. opts=..
 	parts := strings.Fields(f)
-	if len(parts) < 6 {
+	if len(parts) < 7 {
 		return f
 	}
 	parts[0] = strings.SplitN(parts[0], "/", 2)[0]
-	return strings.Join(parts[:6], " ")
+	return strings.Join(parts[:7], " ")
 }
 
 // facts computes the implementation-side canonical facts from the ASTs.
@@ -75,6 +80,28 @@ func facts(src, out string) string {
 	}
 	nIn, cIn := count(in)
 	nOut, _ := count(on)
+	// the comment attribution of protocompile, per significant token (EOF included): index:leading:trailing
+	// for every token that owns a comment -- ties the Lean model's `decorate` on BOTH texts
+	attr := func(f *ast.FileNode) string {
+		var parts []string
+		i := 0
+		seq := f.Items()
+		for it, ok := seq.First(); ok; it, ok = seq.Next(it) {
+			tok, c := f.GetItem(it)
+			if c.IsValid() {
+				continue
+			}
+			info := f.TokenInfo(tok)
+			if l, t := info.LeadingComments().Len(), info.TrailingComments().Len(); l+t > 0 {
+				parts = append(parts, fmt.Sprintf("%d:%d:%d", i, l, t))
+			}
+			i++
+		}
+		if len(parts) == 0 {
+			return "-"
+		}
+		return strings.Join(parts, ",")
+	}
 	empties, seps, angles, colons := 0, 0, 0, 0
 	_ = ast.Walk(in, &ast.SimpleVisitor{
 		DoVisitEmptyDeclNode: func(*ast.EmptyDeclNode) error { empties++; return nil },
@@ -117,8 +144,8 @@ func facts(src, out string) string {
 			opts = append(opts, hx.Enc(sb.String()))
 		}
 	}
-	return fmt.Sprintf("sig=%d/%d com=%d empties=%d seps=%d angles=%d colons=%d imports=%s opts=%s",
-		nIn, nOut, cIn, empties, seps, angles, colons, strings.Join(imps, ","), strings.Join(opts, ","))
+	return fmt.Sprintf("sig=%d/%d com=%d attr=%s empties=%d seps=%d angles=%d colons=%d oattr=%s imports=%s opts=%s",
+		nIn, nOut, cIn, attr(in), empties, seps, angles, colons, attr(on), strings.Join(imps, ","), strings.Join(opts, ","))
 }
 
 // ---------------------------------------------------------------------------------------
